@@ -57,7 +57,14 @@ inductive Item
   | msg                 -- recvMsg{buffer}
   | err (code : Nat)    -- recvMsg{err: status / context error}
   | eof (code : Nat)    -- recvMsg{err: io.EOF} after trailers with this grpc-status
+  | part                -- recvMsg{buffer}: a chunk holding a message's 5-byte header but not all of its payload
 deriving DecidableEq, Repr
+
+/-- The items that end a stream's buffer. -/
+@[simp] def Item.terminal : Item → Bool
+  | .err _ => true
+  | .eof _ => true
+  | _ => false
 
 /-- Where the RPC goroutine is. -/
 inductive PC
@@ -106,6 +113,10 @@ structure St where
   delivered : Nat := 0
   /-- unary: the response message has been received (`cs.receivedFirstMsg`) -/
   gotMsg : Bool := false
+  /-- the parser has read a message header (`readMessageHeaderClient`) and is reading that message's
+      payload (`readClient`, the same select): parked at `recv` with this flag = parked in the middle
+      of a message -/
+  midMsg : Bool := false
 deriving Repr
 
 /-- A new RPC entering `newClientStream`; `reqSz` = size of a unary RPC's request message. -/
@@ -141,18 +152,22 @@ def takeHead (s : St) : Option St :=
   match s.buf with
   | [] => none
   | .msg :: rest =>
-    if s.serverStreams then some { s with buf := rest, delivered := s.delivered + 1, pc := .app }
+    if s.serverStreams then some { s with buf := rest, delivered := s.delivered + 1, midMsg := false, pc := .app }
     else if s.gotMsg then
       -- non-server-streaming: a second message where io.EOF was expected
       some { s with pc := .returned codeInternal }
     else
       -- unary RecvMsg: after the message it reads once more, expecting io.EOF
-      some { s with buf := rest, delivered := s.delivered + 1, gotMsg := true, pc := .parked .recv }
+      some { s with buf := rest, delivered := s.delivered + 1, gotMsg := true, midMsg := false, pc := .parked .recv }
   | .err code :: _ => some { s with pc := .returned code }
   | .eof code :: _ =>
     -- io.EOF: the stream's status; a non-server-streaming RPC that got OK without a message is a cardinality violation
     if !s.serverStreams && !s.gotMsg && code == 0 then some { s with pc := .returned codeInternal }
     else some { s with pc := .returned code }
+  | .part :: rest =>
+    -- the header (and what there is of the payload) is consumed; the parser goes on to read the rest of
+    -- the payload: parked again in the same select, now inside `readClient`
+    some { s with buf := rest, midMsg := true, pc := .parked .recv }
 
 /-- One attempt of the RPC goroutine to get past the select it is parked at (or to take the next
     step of the unary program). Returns `none` when no case is ready (stays parked).
@@ -215,7 +230,8 @@ inductive Ev
   | quotaAvail               -- a stream slot was freed (MAX_CONCURRENT_STREAMS)
   | replenish (n : Nat)      -- loopy wrote n bytes of this stream (needs flow-control window)
   | headers                  -- response headers arrived
-  | message                  -- a response message arrived
+  | message                  -- a response message arrived (or, in the middle of a message, the rest of it)
+  | partialMsg               -- a DATA frame with a message header and only part of the payload arrived
   | trailers (code : Nat)    -- trailers with grpc-status arrived
   | appSend (sz : Nat)       -- streaming application calls SendMsg
   | appRecv                  -- streaming application calls RecvMsg
@@ -242,6 +258,9 @@ def step (preferCtx : Bool) (s : St) : Ev → St
   | .message =>
     if s.sdone || !s.created then s else
     let s1 := { s with hdr := true, buf := s.buf ++ [.msg] }; resume preferCtx (fuelOf s1) s1
+  | .partialMsg =>
+    if s.sdone || !s.created then s else
+    let s1 := { s with hdr := true, buf := s.buf ++ [.part] }; resume preferCtx (fuelOf s1) s1
   | .trailers code =>
     if s.sdone || !s.created then s else
     let s1 := { s with sdone := true, hdr := true, buf := s.buf ++ [.eof code] }; resume preferCtx (fuelOf s1) s1
